@@ -66,7 +66,28 @@ func main() {
 			checkSlice(s, base)
 		}
 	}
+	// Large-size family: long slices over the same alphabet in structured patterns (thresholds of
+	// append growth, map growth inside GroupBy/CountBy/Except, any fast path behind a length test)
+	for _, n := range []int{8, 9, 15, 16, 17, 31, 32, 33, 64, 65, 100, 129, 257} {
+		for _, pat := range []func(i int) int{
+			func(i int) int { return i % 3 },
+			func(i int) int { return (i * i) % 3 },
+			func(i int) int { return (i / 7) % 3 },
+			func(i int) int { return (i*2654435761 + 7) % 1000003 % 3 },
+			func(i int) int { return 1 },
+		} {
+			base := make([]int, n)
+			for i := range base {
+				base[i] = pat(i)
+			}
+			s := append(make([]int, 0, n+3), base...)
+			e.Input(true)
+			checkSlice(s, base)
+		}
+	}
+	checkManyKeys()
 	checkMaps()
+	checkBigMaps()
 	e.Finish(fmt.Sprintf("every slice over {0,1,2} of length <= %d (nil and empty separately), position-tagged where order matters; callbacks: non-commutative accumulators, all 8 predicates, all 27 keyers, two equality relations, MapErr failing at every position, every exclude slice of length <= 2, every unwanted subset, every index -1..len; every partial map {0,1,2}->{0,1}; inputs snapshotted before and compared after each call, results scribbled to show detachment; non-trivial = length >= 2", maxLen))
 }
 
@@ -611,4 +632,206 @@ func eqInts(a, b []int) bool {
 		}
 	}
 	return true
+}
+
+// checkBigMaps: the map helpers on maps that have grown through several bucket splits.
+func checkBigMaps() {
+	for _, n := range []int{9, 17, 33, 65, 200} {
+		m := map[int]int{}
+		for k := 0; k < n; k++ {
+			m[k*3] = k % 5
+		}
+		snap := maps.Clone(m)
+		e.Input(true)
+		c := maps.Clone(m)
+		e.Call()
+		if !reflect.DeepEqual(c, m) {
+			fail("maps.Clone|result", n, "clone of a %d-entry map differs", n)
+		}
+		c[-1] = 1
+		delete(c, 0)
+		if !reflect.DeepEqual(m, snap) {
+			fail("maps.Clone|shares-memory", n, "writing to the clone changed a %d-entry map", n)
+		}
+		keys, vals := maps.Keys(m), maps.Values(m)
+		e.Call()
+		e.Call()
+		sort.Ints(keys)
+		sort.Ints(vals)
+		wantV := []int{}
+		for k := 0; k < n; k++ {
+			if len(keys) != n || keys[k] != k*3 {
+				fail("maps.Keys|result", n, "Keys of a %d-entry map wrong at %d", n, k)
+				break
+			}
+			wantV = append(wantV, k%5)
+		}
+		sort.Ints(wantV)
+		if !eqInts(vals, wantV) {
+			fail("maps.Values|result", n, "Values of a %d-entry map: %v", n, vals)
+		}
+		for v := -1; v <= 5; v++ {
+			k, ok := maps.KeyOf(m, v)
+			e.Call()
+			exists := v >= 0 && v < 5 && v < n
+			if ok != exists || (ok && m[k] != v) {
+				fail("maps.KeyOf|result", n, "KeyOf(%d) on a %d-entry map = (%d,%v)", v, n, k, ok)
+			}
+			if maps.ContainsValue(m, v) != exists {
+				fail("maps.ContainsValue|result", n, "ContainsValue(%d) on a %d-entry map", v, n)
+			}
+		}
+		for k := -1; k <= 3*n; k++ {
+			if maps.HasKey(m, k) != (k >= 0 && k%3 == 0 && k/3 < n) {
+				fail("maps.HasKey|result", n, "HasKey(%d) on a %d-entry map", k, n)
+			}
+		}
+		if !reflect.DeepEqual(m, snap) {
+			fail("maps|input-modified", n, "a %d-entry map was modified", n)
+		}
+		maps.Clear(m)
+		e.Call()
+		if len(m) != 0 {
+			fail("maps.Clear|result", n, "Clear left %d entries of %d", len(m), n)
+		}
+	}
+}
+
+// checkManyKeys: the order- and key-sensitive helpers on inputs with many DISTINCT values
+// (17..130), where result slices and internal maps grow several times.
+func checkManyKeys() {
+	for _, k := range []int{5, 16, 17, 18, 33, 65, 130} {
+		for _, reps := range []int{1, 2, 3} {
+			for _, pat := range []func(i, n int) int{
+				func(i, n int) int { return i % k },
+				func(i, n int) int { return (k - 1 - i%k + k) % k },
+				func(i, n int) int { return (i * 7919) % k },
+				func(i, n int) int { return (i / reps) % k },
+			} {
+				n := k*reps + 1
+				in := make([]int, n)
+				for i := range in {
+					in[i] = pat(i, n)
+				}
+				s := append(make([]int, 0, n+1), in...)
+				ts := tagged(s)
+				e.Input(true)
+				// reference: first-appearance order
+				var order []int
+				groups := map[int][]E{}
+				for i, v := range in {
+					if _, ok := groups[v]; !ok {
+						order = append(order, v)
+					}
+					groups[v] = append(groups[v], E{v, i})
+				}
+				var gg []slices.Grouping[int, E]
+				if call("GroupBy", "many-keys", func() { gg = slices.GroupBy(ts, func(x E) int { return x.V }) }) {
+					ok := len(gg) == len(order)
+					total := 0
+					for i := 0; ok && i < len(gg); i++ {
+						ok = gg[i].Key == order[i] && reflect.DeepEqual(gg[i].Values, groups[order[i]])
+						total += len(gg[i].Values)
+					}
+					if !ok || total != n {
+						fail("GroupBy|result", fmt.Sprintf("%d distinct keys x%d", k, reps), "GroupBy over %d elements with %d distinct keys: groups differ from the reference (sizes sum to %d, want %d)", n, k, total, n)
+					}
+				}
+				var cc []slices.Counting[int]
+				if call("CountBy", "many-keys", func() { cc = slices.CountBy(ts, func(x E) int { return x.V }) }) {
+					ok := len(cc) == len(order)
+					for i := 0; ok && i < len(cc); i++ {
+						ok = cc[i].Key == order[i] && cc[i].Count == len(groups[order[i]])
+					}
+					if !ok {
+						fail("CountBy|result", fmt.Sprintf("%d distinct keys x%d", k, reps), "CountBy over %d elements with %d distinct keys differs from the reference", n, k)
+					}
+				}
+				var d []int
+				if call("Distinct", "many-keys", func() { d = slices.Distinct(s) }) && !eqInts(d, order) {
+					fail("Distinct|result", fmt.Sprintf("%d distinct keys x%d", k, reps), "Distinct over %d distinct values: %v, want %v", k, d, order)
+				}
+				var dt []E
+				if call("DistinctFunc", "many-keys", func() { dt = slices.DistinctFunc(ts, func(a, b E) bool { return a.V == b.V }) }) {
+					ok := len(dt) == len(order)
+					for i := 0; ok && i < len(dt); i++ {
+						ok = dt[i] == groups[order[i]][0]
+					}
+					if !ok {
+						fail("DistinctFunc|result", fmt.Sprintf("%d distinct keys x%d", k, reps), "DistinctFunc over %d distinct values differs from the reference (first occurrences)", k)
+					}
+				}
+				var excl []int
+				for v := 0; v < k; v += 2 {
+					excl = append(excl, v)
+				}
+				var wantEx []int
+				for _, v := range in {
+					if v%2 != 0 {
+						wantEx = append(wantEx, v)
+					}
+				}
+				var ex []int
+				if call("Except", "many-keys", func() { ex = slices.Except(s, excl) }) && !eqInts(ex, wantEx) {
+					fail("Except|result", fmt.Sprintf("%d distinct keys x%d", k, reps), "Except(%d excluded values) differs from the reference", len(excl))
+				}
+				for _, set := range []sets.Set[int]{maps.NewSetFromSlice(excl), sync2.NewSetFromSlice(excl)} {
+					if call("ExceptSet", "many-keys", func() { ex = slices.ExceptSet(s, set) }) && !eqInts(ex, wantEx) {
+						fail("ExceptSet|result", fmt.Sprintf("%d distinct keys x%d", k, reps), "ExceptSet(%d excluded values) differs from the reference", len(excl))
+					}
+				}
+				for _, q := range []int{0, k / 2, k - 1, k} {
+					wi := -1
+					for i, v := range in {
+						if v == q {
+							wi = i
+							break
+						}
+					}
+					if slices.Index(s, q) != wi || slices.Contains(s, q) != (wi >= 0) {
+						fail("Index|result", fmt.Sprintf("%d distinct keys x%d", k, reps), "Index/Contains(%d) wrong on %d elements", q, n)
+					}
+				}
+				fl := slices.Filter(ts, func(x E) bool { return x.V%3 == 0 })
+				j := 0
+				for _, x := range tsFromInts(in) {
+					if x.V%3 == 0 {
+						if j >= len(fl) || fl[j] != x {
+							fail("Filter|result", fmt.Sprintf("%d distinct keys x%d", k, reps), "Filter over %d elements differs from the reference at match %d", n, j)
+							break
+						}
+						j++
+					}
+				}
+				if j != len(fl) {
+					fail("Filter|result", fmt.Sprintf("%d distinct keys x%d", k, reps), "Filter returned %d elements, want %d", len(fl), j)
+				}
+				mp := slices.Map(s, func(v int) int { return v * 2 })
+				for i, v := range in {
+					if len(mp) != n || mp[i] != v*2 {
+						fail("Map|result", fmt.Sprintf("%d distinct keys x%d", k, reps), "Map over %d elements wrong at %d", n, i)
+						break
+					}
+				}
+				if got, want := slices.Fold(s, 0, func(st, v int) int { return st*31 + v }), func() int {
+					st := 0
+					for _, v := range in {
+						st = st*31 + v
+					}
+					return st
+				}(); got != want {
+					fail("Fold|result", fmt.Sprintf("%d distinct keys x%d", k, reps), "Fold over %d elements = %d, want %d", n, got, want)
+				}
+				unchanged("many-keys", s, in)
+			}
+		}
+	}
+}
+
+func tsFromInts(in []int) []E {
+	t := make([]E, len(in))
+	for i, v := range in {
+		t[i] = E{v, i}
+	}
+	return t
 }
